@@ -84,6 +84,10 @@ var vTemplates = [...]struct{ pre, post string }{
 	70: {"", "/2.0 200 OK\r\nX"},
 	71: {"INVITE sip:a SIP/2.0\r\nm:<a>;expires=6\r\nContact: \"B\" <b>;tag=z", "\r\nm:<c>\r\nl:0\r\n\r\n"}, // three Contact headers
 	72: {"INVITE sip:a SIP/2.0\r\nm:<a>;lr", ", <b>\r\nl:0\r\n\r\n"},                                        // between a valueless parameter and the comma
+	// header blocks (no first line) for the stand-alone ParseHeaders objects
+	73: {"P-Asserted-Identity:", "\r\nX:b\r\n\r\n"},
+	74: {"i:a\r\nP-Asserted-Identity: \"a", "\" <b>\r\n\r\n"}, // inside the quoted name of the first PAI value
+	75: {"t:", "\r\nf:<a>\r\n\r\n"},
 }
 
 // vTpl builds template t with a window of w symbolic bytes.
